@@ -55,7 +55,37 @@ TT = {"Stop": "TStop", "Void": "TVoid", "Bool": "TBool", "I8": "TI8", "Double": 
       "I64": "TI64", "Binary": "TBinary", "Struct": "TStruct", "Map": "TMap", "Set": "TSet", "List": "TList", "Uuid": "TUuid"}
 
 
+def args_entry_points(repo):
+    """resolve.rs: which calls of lower_type / lower_type_for_hash_key pass is_args = true.  The `args` set (db.is_arg: with
+    keep_unknown_fields such a struct's decoder takes the rest of the input as unknown fields once every declared field was seen)
+    must hold exactly the types NAMED as a method's parameter / result type, which is what pv/gengen.py lower_docs marks with the
+    flag `a` and what the model's is_arg reads: the two entry points in lower_service pass true, the recursion into the components
+    of a container passes false, the Path arms forward the flag to lower_path, which is the only writer of `args`."""
+    rs = strip_comments(read(repo, "pilota-build/src/resolve.rs"))
+    calls = re.findall(r"self\.(lower_type|lower_type_for_hash_key)\(\s*([^,()]+?)\s*,\s*(\w+)\s*\)", rs)
+    true_calls = sorted((f, a) for f, a, fl in calls if fl == "true")
+    if true_calls != [("lower_type", "&a.ty"), ("lower_type", "&m.ret")]:
+        die("resolve.rs: is_args = true is passed by %r (model: the type of a method's parameter `&a.ty` and its result `&m.ret` only)" % (true_calls,))
+    other = sorted(set(fl for f, a, fl in calls if fl not in ("true", "false")))
+    if other:
+        die("resolve.rs: a call of lower_type / lower_type_for_hash_key forwards a flag (%s): the components of a container-typed "
+            "parameter would become argument types (model: is_args = false below a container)" % ", ".join(other))
+    for fn in ("lower_type", "lower_type_for_hash_key"):
+        body = fn_body(rs, r"fn\s+%s\s*\(\s*&mut\s+self\s*,\s*ty\s*:\s*&ir::Ty\s*,\s*is_args\s*:\s*bool\s*\)" % fn, "Resolver::" + fn)
+        inner = re.findall(r"self\.(?:lower_type|lower_type_for_hash_key)\(\s*\w+\s*,\s*(\w+)\s*\)", body)
+        if len(inner) != 4 or any(x != "false" for x in inner):
+            die("resolve.rs %s: the Vec / Set / Map arms no longer recurse with is_args = false (%r)" % (fn, inner))
+        if len(re.findall(r"ir::TyKind::Path\(p\)\s*=>\s*ty::Path\(self\.lower_path\(p,\s*Namespace::Ty,\s*is_args\)\)", body)) != 1:
+            die("resolve.rs %s: the Path arm no longer forwards is_args to lower_path" % fn)
+    lp = fn_body(rs, r"fn\s+lower_path\s*\(", "Resolver::lower_path")
+    ins = re.findall(r"if\s+is_args\s*\{\s*self\.args\.insert\(def_id\);\s*\}", lp)
+    if len(ins) != 2 or len(re.findall(r"\.args\.insert\(", rs)) != 2:
+        die("resolve.rs: `args` is no longer written exactly by lower_path under `if is_args`")
+    return true_calls
+
+
 def gen_table(repo):
+    args_entry_points(repo)
     ty_rs = strip_comments(read(repo, "pilota-build/src/codegen/thrift/ty.rs"))
     body = fn_body(ty_rs, r"fn\s+ttype\s*\(\s*&self\s*,\s*ty\s*:\s*&Ty\s*\)\s*->\s*FastStr\s*", "ThriftBackend::ttype")
     table = {}
@@ -425,6 +455,23 @@ def lit_table(repo):
     if len(ae) != 1 or not re.search(r"\.find\(\s*\|v\|\s*v\.discr\s*==\s*Some\(\s*\*i\s*\)\s*\)", ae[0][2]) \
             or not re.search(r"panic!\(\s*\"invalid enum value\"\s*\)", ae[0][2]):
         die("lit_into_ty: (Int, Adt Enum) arm is no longer `variants.find(|v| v.discr == Some(*i))` / panic")
+    # ... and it is NAMED the way the enum's definition names it: the member's own path (cur_related_item_path -> the path
+    # resolver -> Context::rust_name(member): pilota.name, change_case, the name-collision fallback), which is what
+    # codegen/mod.rs prints in `pub const {name}: Self`.  Any other way of spelling the member (a case conversion of the raw
+    # name, a formatted path) regenerates the flag as false and breaks C20_arm_tables.
+    enum_number_member_path = bool(re.search(
+        r"\.find\(\s*\|v\|\s*v\.discr\s*==\s*Some\(\s*\*i\s*\)\s*\)\s*\.map_or_else\(\s*\|\|\s*panic!\(\s*\"invalid enum value\"\s*\)\s*,\s*"
+        r"\|v\|\s*self\.cur_related_item_path\(v\.did\)\s*,?\s*\)", ae[0][2])) \
+        and not re.search(r"const_ident|format!|\.name\b", ae[0][2])
+    cg_mod = strip_comments(read(repo, "pilota-build/src/codegen/mod.rs"))
+    if not re.search(r"let\s+name\s*=\s*self\.rust_name\(v\.did\);[^;]*;[^;]*;\s*\(\s*format!\(\"pub const \{name\}: Self = Self\(\{discr\}\);\"\)", cg_mod):
+        die("codegen/mod.rs: an enum member is no longer defined as `pub const {rust_name(member)}: Self = Self(discr);`")
+    rs = strip_comments(read(repo, "pilota-build/src/middle/resolver.rs"))
+    pf = fn_body(rs, r"fn\s+path_for_def_id\s*\(", "path_for_def_id")
+    if not re.search(r"_\s*=>\s*cx\.rust_name\(def_id\)", pf):
+        die("resolver.rs path_for_def_id no longer names a path segment by Context::rust_name")
+    if not re.search(r"let\s+other_item_path\s*=\s*self\.item_path\(b\);", fn_body(ctx, r"pub\s+fn\s+related_item_path\s*\(", "related_item_path")):
+        die("Context::related_item_path changed shape")
     # float text -> f64
     # the text is parsed by `f.parse::<f64>().unwrap()` (one sign only: `-+1.5` panics), or, after the repair, by
     # parse_double, which gives `-+x` the value -(+x)
@@ -695,6 +742,9 @@ def lit_table(repo):
             "Definition const_inline_present : bool := %s." % ("true" if const_inline_present else "false"), "",
             "(* double constants are parsed by parse_double: `-+x` = -(x) (repair double-sign-run); false: f.parse::<f64>().unwrap() *)",
             "Definition double_sign_run_ok : bool := %s." % ("true" if double_sign_run_ok else "false"), "",
+            "(* the (Int, Adt Enum) arm names the member it found by the member's own path, i.e. by Context::rust_name as the enum's",
+            "   definition does (pilota.name, change_case(false), name-collision fallback); false: spelled some other way *)",
+            "Definition enum_number_member_path : bool := %s." % ("true" if enum_number_member_path else "false"), "",
             "(* mk_map lowers a map KEY through lit_as_rvalue (repair map-key-rvalue); false: through lit_into_ty, where a map literal has no arm *)",
             "Definition map_key_rvalue : bool := %s." % ("true" if map_key_rvalue else "false"), "",
             "(* arm 25 of lit_into_ty is (String, Vec) guarded by the element type U8 (repair string-at-bytesvec); false: no such arm *)",
